@@ -344,6 +344,14 @@ where
 /// deviation choosing one of `m` alternatives: list of (position, alternative) vectors,
 /// ordered by number of deviations (0 first).
 pub fn deviation_cases(h: usize, m: usize, k: usize) -> Vec<Vec<(u16, u16)>> {
+    // the list is materialised: refuse sizes that would exhaust memory (a harness bug, not a verdict)
+    let mut total: f64 = 1.0;
+    let mut term: f64 = 1.0;
+    for j in 1..=k {
+        term = term * ((h + 1 - j) as f64) / (j as f64) * (m as f64);
+        total += term;
+    }
+    assert!(total < 3.0e7, "deviation space H={} m={} k={} has {} cases: too large to materialise", h, m, k, total);
     let mut out: Vec<Vec<(u16, u16)>> = vec![vec![]];
     let mut frontier: Vec<Vec<(u16, u16)>> = vec![vec![]];
     for _ in 0..k {
